@@ -31,12 +31,16 @@ func (e expectation) String() string {
 // RootCAs for ServerName at Config.Time?
 func serverChainVerifies(s sScen) bool {
 	switch s {
-	case sTrusted, sWrongKey, sSigCorrupt, sKeySubst:
+	case sTrusted, sWrongKey, sSigCorrupt, sKeySubst, sIPMatch:
 		// wrong-key / sig-corrupt present the genuine trusted chain; key-substitution
-		// shows the client another leaf that is trusted for the same name.
+		// shows the client another leaf that is trusted for the same name; ip-san-match
+		// is a trusted chain whose leaf names the configured IP address in an iPAddress SAN.
 		return true
 	}
-	return false // untrusted root, expired, not yet valid, wrong name, intermediate missing
+	// untrusted root, expired, not yet valid, wrong name, intermediate missing, leaf not
+	// usable for server authentication, expired intermediate, configured IP address not
+	// among the iPAddress SANs
+	return false
 }
 
 // serverProvesPossession: does the peer prove possession of the private key of
@@ -60,7 +64,7 @@ func clientChainVerifies(cs cScen) bool {
 	case cTrusted, cWrongKey, cCVCorrupt:
 		return true
 	}
-	return false // untrusted, expired
+	return false // untrusted, expired, leaf not usable for client authentication
 }
 
 func clientProvesPossession(cs cScen) bool { return cs != cWrongKey && cs != cCVCorrupt }
@@ -113,4 +117,39 @@ func expect(s sScen, isv bool, mode tls.ClientAuthType, cs cScen, strictISV bool
 		return unspecified, silent
 	}
 	return mustComplete, nil
+}
+
+// abortingSide names the endpoint whose own check has to end a handshake that the
+// statement forbids ("client", "server"), or "" where the failed clauses do not
+// determine it. The statement gives each check to one peer: the CLIENT verifies the
+// server's chain and the server's signature, the SERVER verifies the client's
+// certificate and CertificateVerify; in every protocol version the client has
+// finished judging the server's flight before it sends anything about itself, so
+// a failed server-* clause is found first. The one exception is static-RSA key
+// exchange, where possession is proven by decrypting the premaster secret: nothing
+// is signed, and the peer that notices is the server (the client's Finished does
+// not verify under the keys the server derived).
+func abortingSide(k kexClass, s sScen, isv bool, mode tls.ClientAuthType, cs cScen) string {
+	requires := mode == tls.RequireAnyClientCert || mode == tls.RequireAndVerifyClientCert
+	verifies := mode == tls.VerifyClientCertIfGiven || mode == tls.RequireAndVerifyClientCert
+	clientClause := false
+	if !clientSends(mode, cs) {
+		clientClause = requires
+	} else {
+		clientClause = !clientProvesPossession(cs) || (verifies && !clientChainVerifies(cs))
+	}
+	switch {
+	case !isv && !serverChainVerifies(s):
+		return "client"
+	case !isv && !serverProvesPossession(s):
+		if k.signed() {
+			return "client"
+		}
+		return "server"
+	case isv && !serverProvesPossession(s):
+		return "" // the statement is silent on the server-* clause here; either peer may stop first
+	case clientClause:
+		return "server"
+	}
+	return ""
 }
